@@ -537,8 +537,8 @@ Section Growth.
           Ok (got, mk_hbody (hb_bytes b) (hb_offset b + length got) (hb_cl b) (hb_unread b - length got), r')
       end.
 
-  (** [drain]: discards [unread] bytes in windows of at most 4096; a connection that ends first is an error
-      ([UnexpectedEof], an I/O error class) *)
+  (** [drain]: the body is given up ([content_length = 0]: later reads get nothing); discards [unread] bytes in
+      windows of at most 4096; a connection that ends first is an error ([UnexpectedEof], an I/O error class) *)
   Fixpoint drain_loop (fuel : nat) (mode : N) (unread : nat) (r : reader) : outcome reader :=
     match fuel with
     | O => Err E_FUEL
@@ -552,7 +552,7 @@ Section Growth.
     end.
   Definition hb_drain (mode : N) (b : hbody) (r : reader) : outcome (hbody * reader) :=
     match drain_loop (S (hb_unread b)) mode (hb_unread b) r with
-    | Ok r' => Ok (mk_hbody (hb_bytes b) (hb_offset b) (hb_cl b) 0, r')
+    | Ok r' => Ok (mk_hbody (hb_bytes b) (hb_offset b) 0 0, r')
     | Err e => Err e
     | Panic => Panic
     end.
@@ -715,9 +715,14 @@ Definition deco_of_lf (lf : bool) : deco := mk_deco [] [] lf.
 Definition plain (c : N) : bool := negb ((c =? SP) || (c =? CR) || (c =? LF)).
 (** a field value (RFC 9110 5.5): visible bytes, obs-text (>= 128), SP and HTAB inside; it neither starts nor ends
     with whitespace (that would be the optional whitespace around it) *)
+Fixpoint last_not_ows (v : bytes) : bool :=
+  match v with
+  | [] => true
+  | [c] => negb (ows c)
+  | _ :: r => last_not_ows r
+  end.
 Definition value_ok (v : bytes) : bool :=
-  forallb hvalue_byte v && match v with c :: _ => negb (ows c) | [] => true end
-  && match rev v with c :: _ => negb (ows c) | [] => true end.
+  forallb hvalue_byte v && match v with c :: _ => negb (ows c) | [] => true end && last_not_ows v.
 Definition name_ok (n : bytes) : bool :=
   negb (null n) && forallb tchar n && (N.of_nat (length n) <=? 65535).
 Fixpoint nodup_b (l : list bytes) : bool :=
@@ -953,7 +958,7 @@ Definition run_headers2 (x : xval) : xval :=
   end.
 
 (** component h1.poll: (L early content_length end_mode stream (L burst..) (L op..)),
-    op = (N window) | (L (N limit)) | (L) (drain); output (L (L outcome..) consumed) *)
+    op = (N window) | (L (N limit)) | (L) (drain); output (L (L outcome..) consumed), consumed = 0 after an error *)
 Definition d_hop (x : xval) : option hop :=
   match x with
   | XN w => Some (HRead (N.to_nat w))
@@ -967,7 +972,9 @@ Definition run_poll (x : xval) : xval :=
       match d_sched s, d_list d_hop ops with
       | Some sched, Some ops =>
           let (outs, r') := hb_run vec_grow mode (hb_new early (N.to_nat cl)) (mk_reader stream sched) ops in
-          XL [x_list (x_outcome XB) outs; x_nat (length stream - length (rd_data r'))]
+          XL [x_list (x_outcome XB) outs;
+              if forallb (fun o => match o with Ok _ => true | _ => false end) outs
+              then x_nat (length stream - length (rd_data r')) else XN 0]
       | _, _ => bad_input
       end
   | _ => bad_input
